@@ -25,6 +25,7 @@ def run(prog, rep, tier):
     apply(rep, "Y1", "scanner completeness", r_lex.y1(prog), 4)
     apply(rep, "K6", "the driver does not dereference an empty argument list", r_cli.k6(prog), 1)
     apply(rep, "K3", "CLI maps every exception to exit status 2", r_cli.k3(prog), 10)
+    apply(rep, "B4", "every call-graph cycle through yyparse carries a depth bound (format-string splices re-enter the parser through the scanner)", r_api.b4(prog), 1)
     import r_pure
     q = r_pure.q1(prog)
     apply(rep, "Q1", "parsing keeps no process-level state: a query rejected once cannot influence a later parse (no static-storage variable written in library code)",
